@@ -415,7 +415,7 @@ CHECKS["C14"] = {
     "required_cells": ["op:default", "op:keyword", "op:mutate", "op:parse", "op:failparse", "op:endian", "op:load",
                        "op:add_type", "two-cstructs-same-names", "load-histories", "load-histories:align",
                        "load-histories:compiled",
-                       "deepcopy:union", "deepcopy:plain", "custom-type-on-several-cstructs"],
+                       "deepcopy:union", "deepcopy:plain", "custom-type-on-several-cstructs", "failed-load-then-corrected-load"],
     "assumptions": ASSUME_COMMON,
 }
 
